@@ -44,6 +44,20 @@ CHECKS = {
             F("FuzzC05Text", "60s"),
         ],
     },
+    "C06": {
+        "pkg": "c06", "level": "exploration",
+        "manifest": {
+            "text": "the harness holds the device private key, so it can present a signature for any encoded message; each generated (encoded message, label, key size, chain relation) is judged by recomputing sig^e mod N and comparing with the two full-length encodings; one complete sweep over all byte positions for a 1024-bit key",
+            "note": "sampling over positions/values for the larger keys; signatures s+kN denote the same value mod N and are not generated; chain validity is by construction (issuer in pool and inside its validity window)",
+            "technique": "property-based testing (rapid) with constructed signatures; oracle = independent PKCS#1 v1.5 encoder and recomputed public-key operation",
+        },
+        "assumptions": ["math/big modular exponentiation and crypto/x509 chain building are trusted", "MD5 digests are represented by a fixed 16-byte value (label must be refused regardless)"],
+        "subchecks": [
+            R("TestC06Attest", 1500, 6000),
+            E("TestC06PositionSweep"),
+            R("TestC06RealDER", 200, 800, ts=4),
+        ],
+    },
     "C14": {
         "pkg": "c14", "level": "exploration",
         "manifest": {
